@@ -183,6 +183,38 @@ theorem bdd_equiv_refl (a : Bdd α) (ha : a.WF) : Bdd.isEquivalent a a = .ok tru
   obtain ⟨r, h, hr⟩ := bdd_equiv_iff a a ha ha
   rw [h, hr.mpr fun _ => rfl]
 
+
+theorem bdd_equiv_trans (a b c : Bdd α) (ha : a.WF) (hb : b.WF) (hc : c.WF)
+    (h₁ : Bdd.isEquivalent a b = .ok true) (h₂ : Bdd.isEquivalent b c = .ok true) :
+    Bdd.isEquivalent a c = .ok true := by
+  obtain ⟨r₁, e₁, i₁⟩ := bdd_equiv_iff a b ha hb
+  obtain ⟨r₂, e₂, i₂⟩ := bdd_equiv_iff b c hb hc
+  obtain ⟨r₃, e₃, i₃⟩ := bdd_equiv_iff a c ha hc
+  rw [e₁] at h₁; rw [e₂] at h₂
+  have h1 : r₁ = true := by injection h₁
+  have h2 : r₂ = true := by injection h₂
+  rw [e₃, i₃.mpr fun ρ => (i₁.mp h1 ρ).trans (i₂.mp h2 ρ)]
+
+theorem bdd_implied_refl (a : Bdd α) (ha : a.WF) : Bdd.isImpliedBy a a = .ok true := by
+  obtain ⟨r, h, hr⟩ := bdd_implied_iff a a ha ha
+  rw [h, hr.mpr fun _ h => h]
+
+/-- the three representations answer alike -/
+theorem equiv_answers_agree (e₁ e₂ : Expr α) (t₁ t₂ : Table α) (b₁ b₂ : Bdd α)
+    (ht₁ : t₁.WF) (ht₂ : t₂.WF) (hb₁ : b₁.WF) (hb₂ : b₂.WF)
+    (h1t : ∀ ρ, e₁.den ρ = t₁.den ρ) (h2t : ∀ ρ, e₂.den ρ = t₂.den ρ)
+    (h1b : ∀ ρ, e₁.den ρ = b₁.den ρ) (h2b : ∀ ρ, e₂.den ρ = b₂.den ρ) :
+    t₁.semanticEq t₂ = e₁.semanticEq e₂ ∧ Bdd.isEquivalent b₁ b₂ = .ok (e₁.semanticEq e₂) := by
+  constructor
+  · apply Bool.eq_iff_iff.mpr
+    rw [table_equiv_iff t₁ t₂ ht₁ ht₂, expr_equiv_iff]
+    simp only [h1t, h2t]
+  · obtain ⟨r, h, hr⟩ := bdd_equiv_iff b₁ b₂ hb₁ hb₂
+    rw [h]; congr 1
+    apply Bool.eq_iff_iff.mpr
+    rw [hr, expr_equiv_iff]
+    simp only [h1b, h2b]
+
 /-- non-vacuity: `a xor b` against the same function rebuilt, and against a near miss -/
 example : (Expr.mkXor (.lit 1) (.lit 2) : Expr Nat).semanticEq
     (.or [.and [.lit 1, .not (.lit 2)], .and [.not (.lit 1), .lit 2, .or [.lit 7, .not (.lit 7)]]]) = true := by decide
